@@ -112,6 +112,10 @@ pub fn next_solution_or<'a>(sn: Rc<RefCell<SolutionNode<'a>>>)
         Some(_) => { return solution; },
     }
 
+    // A cut (!) in the first alternative disables backtracking
+    // on this node: the other alternatives are not tried.
+    if sn_ref.no_backtracking { return None; }
+
     match &sn_ref.operator_tail {
         None => { return None; },
         Some(tail) => {
